@@ -62,8 +62,9 @@ def meta_oracle(times, nums):
 
 
 class Config:
-    def __init__(self, name, fmt, start, n, kw=None, sat_id=None, nums=None, cfg=(0, 0, 0, 0)):
+    def __init__(self, name, fmt, start, n, kw=None, sat_id=None, nums=None, cfg=(0, 0, 0, 0), scene=None):
         self.name, self.fmt, self.start, self.n = name, fmt, start, n
+        self.scene = scene
         self.kw = kw or {}
         self.sat_id = sat_id
         self.nums = nums
@@ -89,6 +90,14 @@ def standard_configs(rng):
         Config("klmGac-midnight-tiepoints", "klmGac", ydm_to_ms(2002, 186, 86400000 - 7300), 30,
                kw=dict(interpolate_coords=False), cfg=(0, 1, 0, 1)),
         Config("klmLac", "klmLac", ydm_to_ms(2002, 187, 10000000), 10, cfg=(0, 1, 0, 1)),
+        # a NOAA-14 pass whose last line lies 300 ms AFTER the end of a listed scan-motor interval (2001-10-19 13:38:00): the
+        # recorded times leave the interval, the drift-corrected ones (clock error 0.7 s) do not; noisy pixels are planted, so
+        # the calibrated channels depend on which of the two series the interval test saw
+        Config("podGac-drift-tsm-end", "podGac", ydm_to_ms(2001, 292, 13 * 3600000 + 38 * 60000 + 300) - 39 * 500, 40,
+               kw=dict(tle_name="TLE2001_%(satname)s.txt"), cfg=(1, 1, 1, 1), scene="tsm"),
+        # ... and one whose first line lies 300 ms after the START of one (16:58:00): recorded inside, corrected outside
+        Config("podGac-drift-tsm-start", "podGac", ydm_to_ms(2001, 292, 16 * 3600000 + 58 * 60000 + 300), 40,
+               kw=dict(tle_name="TLE2001_%(satname)s.txt"), cfg=(1, 1, 1, 1), scene="tsm"),
         # no element set within the limit: every angle request takes the approximate fallback, the first and the later ones
         Config("klmGac-stale-tle", "klmGac", ydm_to_ms(2000, 250, 30000000), 30, cfg=(0, 1, 0, 0)),
     ]
@@ -112,12 +121,27 @@ class Subject:
             b.prt[rng.choice(thermo), :] = 10
             b.ict[rng.randrange(len(nums)), 0] = 20
             b.space[rng.randrange(len(nums)), 0] = 30
+        if cfg.scene == "tsm":
+            # a smooth scene with noise planted in a few places, so that the scan-motor filter selects some pixels
+            w = filegen.FMT[cfg.fmt]["width"]
+            smp = np.zeros((len(nums), w, 5), dtype=np.int64)
+            for c, base in enumerate((300, 320, 500, 480, 470)):
+                smp[:, :, c] = base + (np.arange(w)[None, :] // 40) + b.nprng.integers(0, 2, size=(len(nums), w))
+            for _ in range(8):
+                i, j = rng.randrange(len(nums)), rng.randrange(w)
+                smp[i, j, 0] += 300
+                smp[i, j, 3] += 400
+            b.samples = smp.reshape(len(nums), w * 5).astype(np.uint32)
         # smooth tie points along a plausible track so that interpolation and slerp are well conditioned
         self.builder = b
         self.data = b.tobytes()
         self.name = b.dsname
         self.nums = nums
         self.tle_dir = filegen.tle_dir(ctx)
+        p = os.path.join(self.tle_dir, "TLE2001_noaa14.txt")
+        if not os.path.exists(p):
+            with open(p, "w") as fh:
+                fh.write(filegen.retimed_tle(filegen.NOAA14_TLE, ["01291.54713399", "01292.46799836"]))
         for extra in ("noaa10",):
             p = os.path.join(self.tle_dir, "TLE_%s.txt" % extra)
             if not os.path.exists(p):
